@@ -2,11 +2,17 @@
 """Merges the per-worker outputs of tools/seeded_matrix.py (MATRIX_WORKER=n) into
 /verif/seeded/MATRIX.tsv and /verif/seeded/expected.json."""
 import json, glob
-rows, expected, head = [], {}, ""
-for f in sorted(glob.glob("/var/tmp/scratch/matrix-part*.json")):
+byid, expected, heads = {}, {}, []
+for f in sorted(glob.glob("/var/tmp/scratch/matrix-part*.json")):   # later parts (re-runs) override earlier ones
     d = json.load(open(f))
-    rows += d["rows"]; expected.update(d["expected"]); head = d["head"]
-rows.sort()
+    for r in d["rows"]:
+        byid[r[0]] = r
+        expected.pop(r[0], None)
+    expected.update(d["expected"])
+    if d["head"] not in heads:
+        heads.append(d["head"])
+rows = [byid[k] for k in sorted(byid)]
+head = ", ".join(heads)
 with open("/verif/seeded/MATRIX.tsv", "w") as f:
     f.write(f"# seeded change x quick checks that can be affected by the files it touches, /repo HEAD {head}; columns: id, checks reporting a VIOLATION [first obligations], checks UNDECIDED, checks run and clean\n")
     for r in rows:
